@@ -1,5 +1,6 @@
 import PysphVerif.Driver.Common
 import PysphVerif.Gen.Kernels
+import PysphVerif.Gen.KernelWrapper
 /-!
 Line protocol for C08 (exact rationals):
 
@@ -10,6 +11,18 @@ Line protocol for C08 (exact rationals):
   `grad k=… pos=<0|1> wdash=<rat> h=<rat> rij=<rat> x=<rat>,<rat>,<rat>` → `g=<rat>,<rat>,<rat>`
        the generated gradient monomials (`grad` when `rij > rmin`, else `grad0`)
   `checks k=…`                             → the table checks `chain=… support=… …` (logged as evidence)
+
+the wrapper template (`Gen/KernelWrapper.lean`, run on IEEE doubles `x<16 hex>`):
+
+  `wcode`                                  → the generated `Code`, printed
+  `wargs xi=<3 doubles> xj=<3 doubles>`    → `kx=<3> kr=<1> gx=<3> gr=<1>`
+       the `(xij, rij)` the generated `kernel` / `gradient` bodies pass to the kernel object
+       (the model run with probing kernels on a zeroed wrapper)
+  `whist calls=<c>;<c>;… tab=<e>;<e>;…`     → `now=<l>;<l>;… end=<l>;<l>;…`
+       `c = g|k:<xi>:<xj>:<h>` one call on ONE wrapper (zeroed scratch at the start),
+       `e = <xij>:<rij>:<h>:<w>:<g>` the kernel object as a finite table (value `w` and gradient `g`
+       at `(xij, rij, h)`, matched by bit pattern; anything else is NaN);
+       `now` = every result as read at its return, `end` = every result as read after the last call
 -/
 namespace PysphVerif.Driver.C08
 open PysphVerif.Wire PysphVerif.Kernel PysphVerif.Poly PysphVerif.Gen.Kernels
@@ -20,9 +33,89 @@ def findTable (k : String) : Option KTable := all.find? (fun K => tableName K ==
 
 def b01 (b : Bool) : String := if b then "1" else "0"
 
+/-! ### the wrapper model on doubles -/
+open PysphVerif.KernelWrapper in
+def fOps (kernel : V3 Float → Float → Float → Float)
+    (gradient : V3 Float → Float → Float → V3 Float → V3 Float) : Ops Float :=
+  { sub := (· - ·), add := (· + ·), mul := (· * ·), sqrt := Float.sqrt,
+    kernel := kernel, gradient := gradient, undef := 0.0 / 0.0 }
+
+open PysphVerif.KernelWrapper in
+def parseV3? (s : String) : Option (V3 Float) :=
+  match parseList? parseFloatBits? s with
+  | some [a, b, c] => some ⟨a, b, c⟩
+  | _ => none
+
+open PysphVerif.KernelWrapper in
+def zeroSt : St Float := ⟨⟨0, 0, 0⟩, ⟨0, 0, 0⟩⟩
+
+def showFl (l : List Float) : String := showList showFloatBits l
+
+open PysphVerif.KernelWrapper in
+def wargs (xi xj : V3 Float) : String :=
+  let code := Gen.KernelWrapper.code
+  let one (o : Ops Float) (g : Bool) : List Float :=
+    ((observe o code zeroSt [⟨g, xi, xj, 1.0⟩]).headD [])
+  let gid : V3 Float → Float → Float → V3 Float → V3 Float := fun x _ _ _ => x
+  let kx := [one (fOps (fun x _ _ => x.x) gid) false, one (fOps (fun x _ _ => x.y) gid) false,
+             one (fOps (fun x _ _ => x.z) gid) false].flatten
+  let kr := one (fOps (fun _ r _ => r) gid) false
+  let gx := one (fOps (fun _ r _ => r) gid) true
+  let gr := (one (fOps (fun _ r _ => r) (fun _ r _ _ => ⟨r, r, r⟩)) true).take 1
+  s!"kx={showFl kx} kr={showFl kr} gx={showFl gx} gr={showFl gr}"
+
+open PysphVerif.KernelWrapper in
+structure Entry where
+  x : V3 Float
+  r : Float
+  h : Float
+  w : Float
+  g : V3 Float
+
+open PysphVerif.KernelWrapper in
+def Entry.hit (e : Entry) (x : V3 Float) (r h : Float) : Bool :=
+  e.x.x.toBits == x.x.toBits && e.x.y.toBits == x.y.toBits && e.x.z.toBits == x.z.toBits &&
+  e.r.toBits == r.toBits && e.h.toBits == h.toBits
+
+open PysphVerif.KernelWrapper in
+def parseEntry? (s : String) : Option Entry :=
+  match s.splitOn ":" with
+  | [x, r, h, w, g] => do
+    pure ⟨← parseV3? x, ← parseFloatBits? r, ← parseFloatBits? h, ← parseFloatBits? w, ← parseV3? g⟩
+  | _ => none
+
+open PysphVerif.KernelWrapper in
+def parseCall? (s : String) : Option (Call Float) :=
+  match s.splitOn ":" with
+  | [k, xi, xj, h] =>
+    if k ≠ "g" ∧ k ≠ "k" then none else do
+    pure ⟨k == "g", ← parseV3? xi, ← parseV3? xj, ← parseFloatBits? h⟩
+  | _ => none
+
+open PysphVerif.KernelWrapper in
+def whist (cs : List (Call Float)) (tab : List Entry) : String :=
+  let nan : Float := 0.0 / 0.0
+  let o := fOps (fun x r h => ((tab.find? (·.hit x r h)).map (·.w)).getD nan)
+    (fun x r h _ => ((tab.find? (·.hit x r h)).map (·.g)).getD ⟨nan, nan, nan⟩)
+  let code := Gen.KernelWrapper.code
+  let sh (ls : List (List Float)) : String := if ls.isEmpty then "_" else ";".intercalate (ls.map showFl)
+  s!"now={sh (observeNow o code zeroSt cs)} end={sh (observe o code zeroSt cs)}"
+
 def handle (line : String) : String :=
   match tokens line with
   | ["list"] => ",".intercalate (all.map tableName)
+  | ["wcode"] => ((toString (repr Gen.KernelWrapper.code)).replace "\n" " ")
+  | "wargs" :: rest =>
+    let kv := kvs rest
+    match (lookup kv "xi") >>= parseV3?, (lookup kv "xj") >>= parseV3? with
+    | some xi, some xj => wargs xi xj
+    | _, _ => "bad-op"
+  | "whist" :: rest =>
+    let kv := kvs rest
+    match (lookup kv "calls").bind (fun s => (s.splitOn ";").mapM parseCall?),
+          (lookup kv "tab").bind (fun s => (s.splitOn ";").mapM parseEntry?) with
+    | some cs, some tab => whist cs tab
+    | _, _ => "bad-op"
   | cmd :: rest =>
     let kv := kvs rest
     match (lookup kv "k") >>= findTable with
